@@ -39,6 +39,10 @@ class Missing(metaclass=MissingType):
     ) -> bool:
         return value is MISSING
 
+    def __reduce__(self) -> Any:
+        # copy, deepcopy and pickle have to resolve to the singleton instead of a new instance
+        return (Missing, ())
+
     def __str__(self) -> str:
         return "MISSING"
 
